@@ -413,6 +413,8 @@ var Presets = map[string]Features{
 }
 
 func init() {
+	Presets["tiny"] = Features{Scopes: 2, Ctors: 2, Decs: 1, Invs: 1, Types: 2, PNamed: 0.1, POpt: 0.25, PGroup: 0.25,
+		PSoft: 0.3, PFlat: 0.3, PExport: 0.3, PMulti: 0.2, PAs: 0.1, PCb: 0.2, PObj: 0.4, PNest: 0.2, PGroupDec: 0.3, MaxParams: 1}
 	Presets["medium"] = Features{Scopes: 3, Ctors: 6, Decs: 2, Invs: 3, Types: 4, PNamed: 0.15, POpt: 0.25, PGroup: 0.25,
 		PSoft: 0.3, PFlat: 0.3, PExport: 0.3, PMulti: 0.3, PAs: 0.15, PCb: 0.4, PObj: 0.4, PNest: 0.3, PReenter: 0.1, PVal: 0.12, PGroupDec: 0.3, MaxParams: 3}
 	Presets["large"] = Features{Scopes: 4, Ctors: 12, Decs: 4, Invs: 4, Types: 6, PNamed: 0.2, POpt: 0.25, PGroup: 0.25,
